@@ -733,3 +733,52 @@ def missing_rule(ctx, R, rule):
                    found=pc_text(o['pc'], 8), entry=m.fp)
             n += 1
     R.floor('Missing* outcomes examined', n, 8)
+
+
+def c01_accept_unknown(ctx, R, rule='C01.A'):
+    """No rejecting outcome of the field parser is compatible with the acceptance condition of a *general* UNKNOWN line
+    (PROXY, UNKNOWN, then CRLF directly or a space and arbitrary CR-free text, the CRLF being the first CR): decided with the token-layout
+    theory (engine/layout.py).  The skip loop of the UNKNOWN arm is unrolled (splitn yields at most 7 tokens)."""
+    m = model(ctx, R)
+    ev, outs = m.fp_outs()
+    if not outs:
+        return
+    srcs = split_sources(outs)
+    if len(srcs) != 1:
+        return
+    src = next(iter(srcs))
+    text = m.text()
+    tk = lambda k: ('call', 'tok', (src, I(k)))
+    n = T.mk_len(text)
+    CRt = I(tables.V1_CR)
+    sub_ = {tk(0): ('bytes', tables.V1_PREFIX), tk(1): ('bytes', tables.V1_UNKNOWN)}
+    A = [T.bnot(T.eq0(n)), T.cmp('Le', n, I(tables.V1_MAX)), ('call', 'has_tok', (src, I(1))),
+         ('call', 'ends_with', (text, ('bytes', tables.V1_SUFFIX))), ('call', 'has_byte', (text, CRt)),
+         T.eq0(T.sub(('call', 'first_byte', (text, CRt)), T.sub(n, I(2)))),
+         T.eq0(T.sub(T.mk_len(tk(0)), I(len(tables.V1_PREFIX)))), T.eq0(T.sub(T.mk_len(tk(1)), I(len(tables.V1_UNKNOWN))))]
+    seen = {}
+    n_checked = 0
+    for o in outs:
+        if match(o['ret'], OK(ANY)):
+            continue
+        pc2 = [fold_preds(T.rebuild(a, sub_)) for a in o['pc']]
+        if T.FALSE in pc2:
+            continue
+        n_checked += 1
+        atoms = [a for a in pc2 if a != T.TRUE] + A
+        if solver.sat(atoms):
+            has_, no_ = set(), set()
+            for a in o['pc']:
+                neg = a[0] == 'not'
+                b = a[1] if neg else a
+                if b[0] == 'call' and b[1] == 'has_tok' and b[2][1][0] == 'int':
+                    (no_ if neg else has_).add(b[2][1][1])
+            key = '%s/seen[%s]absent[%s]' % (T.short(o['ret'])[:70], ','.join(map(str, sorted(has_))), ','.join(map(str, sorted(no_))))
+            seen.setdefault(key, o)
+    for key, o in sorted(seen.items()):
+        R.inst(rule, 'well-formed-UNKNOWN-line-not-rejected/' + key, False,
+               expected='no rejecting outcome is compatible with a well-formed PROXY UNKNOWN[ text]CRLF line', found='%s possible under: %s' % (T.short(o['ret'])[:60], pc_text(o['pc'][-8:], 8)),
+               entry='v1 field parser', kind='over-rejection')
+    R.inst(rule, 'well-formed-UNKNOWN-line-not-rejected', True, expected='checked against every rejecting outcome', found='%d outcomes examined, %d classes compatible' % (n_checked, len(seen)),
+           entry='v1 field parser', nontrivial=True)
+    R.floor('rejecting outcomes examined (general UNKNOWN line)', n_checked, 20)
